@@ -226,6 +226,12 @@ def helper_shape(lib, f, obj, field, helper, consts):
             if e.k == 'call' and e.a[0].split('::')[-1] == field and e.a[1] is not None and path_of(e.a[1]) == obj and not e.a[2]:
                 local = s.a[0]
                 got = True
+                from .cxx import int_type
+                getters = [g for g in lib.fns(e.a[0]) if not g.params]
+                lt, gt = int_type(s.a[1]), (int_type(getters[0].ret) if getters else None)
+                if lt is not None and gt is not None and lt != gt:
+                    return False, ('the value of %s.%s() (%sint%d_t) is held in a %sint%d_t local: stored values outside the common range are reinterpreted, '
+                                   'so the wrap test of %s never fires for them' % (obj, field, '' if gt[1] else 'u', gt[0], '' if lt[1] else 'u', lt[0], helper))
         elif s.k == 'expr' and s.a[0].k == 'call':
             e = s.a[0]
             if e.a[0].endswith('::' + helper) and local is not None and e.a[2] and path_of(e.a[2][0]) == local:
@@ -271,5 +277,7 @@ SELFTEST = [
     dict(id='increment15-step', file='src/ace_time/time_offset_mutation.h', find='int16_t minutes = offset.toMinutes() + 15;', replace='int16_t minutes = offset.toMinutes() + 30;', rule='R2', construct='increment15Minutes'),
     dict(id='month-helper-modulus', file='src/ace_time/zoned_date_time_mutation.h', find='incrementModOffset(month, (uint8_t) 12, (uint8_t) 1);', replace='incrementModOffset(month, (uint8_t) 13, (uint8_t) 1);', rule='R3', construct='incrementMonth'),
     dict(id='hour-helper-writes-minute', file='src/ace_time/zoned_date_time_mutation.h', find='  dateTime.hour(hour);', replace='  dateTime.minute(hour);', rule='R3', construct='incrementHour'),
+    dict(id='hour-helper-signed-local', file='src/ace_time/zoned_date_time_mutation.h',
+         find='  uint8_t hour = dateTime.hour();\n  ace_common::incrementMod(hour, (uint8_t) 24);', replace='  int8_t hour = dateTime.hour();\n  ace_common::incrementMod(hour, (int8_t) 24);', rule='R3', construct='incrementHour'),
     dict(id='day-helper-no-offset', file='src/ace_time/zoned_date_time_mutation.h', find='incrementModOffset(day, (uint8_t) 31, (uint8_t) 1);', replace='incrementMod(day, (uint8_t) 31);', rule='R3', construct='incrementDay'),
 ]
